@@ -353,7 +353,7 @@ fn gen_mark(rng: &mut Rng, cfg: &GenCfg, next_id: &mut usize) -> Mark {
             // keep salts distinct even when short
             salt.push_str(&format!("{}", id));
         }
-        Mark::Marked { id, salt, fmt: if cfg.reference { rng.below(3) as u8 } else { 0 }, disc: None }
+        Mark::Marked { id, salt, fmt: if cfg.reference { rng.below(4) as u8 } else { 0 }, disc: None }
     } else {
         Mark::Clear
     }
